@@ -139,12 +139,22 @@ def materialise(case, d, exe):
 def run_case(case, d, exe):
     stub, argv, env = materialise(case, d, exe)
     t0 = time.time()
-    try:
-        p = subprocess.run(argv, capture_output=True, env=env, timeout=TIMEOUT, cwd=d)
-        rc, out, err = p.returncode, p.stdout.decode('latin-1'), p.stderr.decode('latin-1')
-    except subprocess.TimeoutExpired:
-        rc, out, err = 'timeout', '', ''
-    r = {'rc': rc, 'out': out, 'err': err, 'wall': time.time() - t0, 'sol': None, 'sol_special': None, 'log': '',
+    retried = False
+    while True:
+        try:
+            p = subprocess.run(argv, capture_output=True, env=env, timeout=case.get('timeout', TIMEOUT), cwd=d)
+            rc, out, err = p.returncode, p.stdout.decode('latin-1'), p.stderr.decode('latin-1')
+        except subprocess.TimeoutExpired:
+            rc, out, err = 'timeout', '', ''
+            if not retried and 'timeout' not in case:
+                # a hang of the driver is deterministic and shows again; a stall of the (shared, loaded) machine does not:
+                # the run is repeated once from the same files before it is reported as a hang
+                retried = True
+                if os.path.isfile(stub + '.reclog'):
+                    os.remove(stub + '.reclog')          # (<stub>.sol is opened "wb" by the driver; its prepared state is kept)
+                continue
+        break
+    r = {'rc': rc, 'out': out, 'err': err, 'wall': time.time() - t0, 'retried_after_timeout': retried, 'sol': None, 'sol_special': None, 'log': '',
          'cmdline': ' '.join(argv), 'env': {k: v for k, v in env.items() if k.endswith('_options') or k.startswith('RECSOLVER_')}}
     sp = stub + '.sol'
     if os.path.islink(sp) or os.path.isdir(sp):
@@ -859,8 +869,30 @@ class CaseGen:
     # ---- families
     def case(self):
         r = self.r
-        fam = r.choice(['lp', 'lp', 'mix', 'mix', 'mix', 'infeasible', 'unsupported', 'bigm', 'badheader', 'badbody', 'missing', 'names'])
-        if fam == 'lp':
+        fam = r.choice(['lp', 'lp', 'mix', 'mix', 'mix', 'infeasible', 'unsupported', 'bigm', 'badheader', 'badbody', 'missing', 'names', 'start'])
+        if fam == 'start':
+            # valid LP/MIP + incoming start values (x / d segments) x incoming basis (.sstatus) x basis option x which of the
+            # WARMSTART / MIPSTART features the driver declares (RECSOLVER_FEATURES) x MIP or not: input the driver may use or
+            # ignore, never a reason to fail
+            m = self.g.model_lp()
+            while not m.cons:
+                m = self.g.model_lp()
+            what, basis = self.g.add_start(m)
+            feats = r.choice(['', '-WARMSTART', '-WARMSTART', '-MIPSTART', '-WARMSTART,-MIPSTART'])
+            c = self.base('start:%s:%s:%s' % (what or '-', basis, feats or 'all'), m)
+            c['natural'] = 'none'
+            if feats:
+                c['env']['RECSOLVER_FEATURES'] = feats
+            if r.chance(1, 2):
+                c['env']['RECSOLVER_ISMIP'] = r.choice(['0', '1'])
+            c['start_opts'] = []
+            if r.chance(1, 2):
+                c['start_opts'].append(('%s=%d' % (r.choice(['alg:basis', 'basis']), r.below(4)), 'o'))
+            if 'WARMSTART' not in feats and r.chance(1, 2):      # alg:start is registered only for drivers with WARMSTART
+                c['start_opts'].append(('%s=%d' % (r.choice(['alg:start', 'warmstart']), r.below(3)), 'o'))
+            if r.chance(1, 4):
+                c['start_opts'].append(('debug=1', 'o'))
+        elif fam == 'lp':
             c = self.base('lp', self.g.model_lp())
             c['natural'] = 'none'
         elif fam == 'mix':
@@ -905,12 +937,15 @@ class CaseGen:
             c['natural'] = 'none'
         self.add_mode(c)
         self.add_options(c)
+        if c.get('start_opts') and c.get('stub', True):
+            c['options'] = c['start_opts'] + c['options']
+            c['all_opts'] = c.get('all_opts_env', []) + c['options']
         if c.get('bigm_acc1') and c.get('stub', True):
             c['options'] = [('acc:indle=1', 'o'), ('acc:indge=1', 'o'), ('acc:indeq=1', 'o')] + c['options']
             c['all_opts'] = c.get('all_opts_env', []) + c['options']
         self.add_names(c)
         self.add_outpath(c)
-        if fam in ('lp', 'mix', 'names', 'infeasible', 'bigm', 'unsupported'):
+        if fam in ('lp', 'mix', 'names', 'infeasible', 'bigm', 'unsupported', 'start'):
             self.add_fault(c)
             self.add_answer(c)
         self.add_extras(c)
@@ -1113,7 +1148,8 @@ def corpus_cases(cg):
     mk('graph_export', options=[('cvt:writegraph=@DIR@/graph.jsonl', 'o')], graph=True)
     mk('graph_export_unwritable', options=[('writegraph=@DIR@/no/such/dir/graph.jsonl', 'o')], graph=True, natural=('convert', 'plain', None))
     m3 = lp(); m3.lcon(('le', ('v', 0), ('n', 5)))
-    c = cg.base('corpus:counterexample_exportlogcon_undefined', m3); c['all_opts'] = c['options'] = [('cvt:writegraph=@DIR@/graph.jsonl', 'o')]
+    c = cg.base('corpus:fixed_exportlogcon_undefined', m3);   # 8093d9c: diagnosed (500, "... has no expression"), no crash
+    c['expect_msg_re'] = r'has no expression'; c['all_opts'] = c['options'] = [('cvt:writegraph=@DIR@/graph.jsonl', 'o')]
     L = c['nl'].split('\n'); t = L[1].split(); t[5] = '2'; L[1] = ' ' + ' '.join(t); c['nl'] = '\n'.join(L)
     c['natural'] = ('convert', 'plain', None); c['graph'] = True; out.append(c)
     c = cg.base('corpus:undefined_lcons_no_export', m3); c['all_opts'] = []
@@ -1150,6 +1186,29 @@ def corpus_cases(cg):
             for code in codes:
                 mk('inject:%s:%s' % (site, kind), env={'RECSOLVER_FAULT': '%s:%s' % (site, kind) + (':%d' % code if code is not None else '')},
                    inject=(site, kind, code), synthetic=True)
+    # incoming start values / basis x declared features (seeded C09-6): a valid model with x and d segments must be solved whatever
+    # subset of WARMSTART / MIPSTART the driver declares
+    for what in ('x', 'd', 'xd'):
+        for basis in ('none', 'both', 'var'):
+            for feats in ('', '-WARMSTART', '-MIPSTART', '-WARMSTART,-MIPSTART'):
+                for opt in (None, 'basis=0', 'basis=3'):
+                    if opt and (what != 'xd' or basis == 'var'):
+                        continue
+                    m = lp(); cg.g.add_start(m, what, basis)
+                    c = cg.base('corpus:start:%s:%s:%s:%s' % (what, basis, feats or 'all', opt or '-'), m)
+                    c['natural'] = 'none'
+                    c['options'] = c['all_opts'] = [(opt, 'o')] if opt else []
+                    if feats:
+                        c['env']['RECSOLVER_FEATURES'] = feats
+                    out.append(c)
+    # not exceptions (round 6): the stage kills the process / does not return.  Reached: crash / hang; not reached (a bad
+    # option ends the run before): the run ends as if nothing had been injected (C09_pipeline_abort_hang)
+    for site in SITES:
+        mk('inject:%s:abort' % site, env={'RECSOLVER_FAULT': '%s:abort' % site}, inject=(site, 'abort', None), synthetic=True)
+    mk('inject:solve:hang', env={'RECSOLVER_FAULT': 'solve:hang'}, inject=('solve', 'hang', None), synthetic=True, timeout=5)
+    for k in ('abort', 'hang'):
+        mk('inject:convert:%s-unreached' % k, env={'RECSOLVER_FAULT': 'convert:%s' % k}, inject=('convert', k, None), synthetic=True,
+           timeout=20, options=[('foo=1', 'b')])
     for t, k in ((1, 'stdExn'), (2, 'withCode'), (3, 'unsupported')):
         mk('script-throw%d' % t, script='code 250\nmsg s\nthrow %d\n' % t, answer=(250, False, False),
            inject=('solve', k, 250 if t == 2 else None), synthetic=True)
@@ -1216,7 +1275,7 @@ ALL_ARMS = (['parseFlags.' + x for x in ('nil', 'wantsol', 'noecho', 'dashdash',
             ['reportCode.mpError>=100', 'reportCode.mpError<100', 'reportCode.stdExn'] +
             ['conclude.finished-retry-after-write-error', 'conclude.exported', 'conclude.info'] +
             ['suppressMsg.true', 'suppressMsg.false'] +
-            ['Raise.' + k for k in KINDS + ['wrappedInfeas']] + ['Stage.' + st for st in STAGES])
+            ['Raise.' + k for k in KINDS + ['wrappedInfeas']] + ['Stage.' + st for st in STAGES] + ['Beh.abort', 'Beh.hang'])
 EXIT_CODE_OF = {'plain': -1, 'infeas': 200, 'wrappedInfeas': 200, 'solCheck': 150, 'unsupported': 1, 'optionError': -1, 'readError': 1, 'fmtError': 1}
 
 
@@ -1281,7 +1340,11 @@ def model_arms(c, fault, ending, wantsol_eff=None):
     writable = op == 'ok'
     if isinstance(ending, tuple):
         st, rz, code = ending
-        A.add('Raise.' + rz); A.add('Stage.' + st)
+        A.add('Stage.' + st)
+        if rz in ('abort', 'hang'):
+            A.add('Beh.' + rz)
+            return A, writable
+        A.add('Raise.' + rz)
         kind = 'foreign' if rz == 'foreign' else ('stdExn' if rz in ('stdExn', 'systemError') else 'mpError')
         if st == 'ctor':
             A.add('fail.ctor-' + kind)
@@ -1502,7 +1565,7 @@ def run(ck):
     translator_ok = rc == 0
     if translator_ok:
         proof_ok, failing = ck.proof_stage('MpVerif.C09.Props', 'MpVerif/C09/Props.lean', 'C09_',
-                                            ['MpVerif/C09/*.lean', 'MpVerif/Gen/C09Driver.lean'], expect_min=51)
+                                            ['MpVerif/C09/*.lean', 'MpVerif/Gen/C09Driver.lean'], expect_min=56)
     else:
         proof_ok, failing = False, ['translator gen_c09.py: ' + (out + err).strip()[-400:]]
         ck.cov.update({'obligations': 51, 'discharged': 0, 'checker_cmd': 'translators/gen_c09.py failed'})
@@ -1526,6 +1589,9 @@ def run(ck):
     with ThreadPoolExecutor(max_workers=6) as ex:
         results = list(ex.map(one, cases))
     ck.log('ran %d processes in %.1fs (max single %.2fs)' % (len(cases), time.time() - t0, max(r['wall'] for r in results)))
+    n_retried = sum(1 for r in results if r.get('retried_after_timeout') and r['rc'] != 'timeout')
+    if n_retried:
+        ck.notes.append('%d run(s) exceeded the %d s limit once and completed normally when repeated (machine stall, not a hang of the driver)' % (n_retried, TIMEOUT))
 
     lines, evals = [], []
     for c, r in zip(cases, results):
@@ -1607,10 +1673,10 @@ def run(ck):
         if c.get('expect_msg_re') and not (o['kind'] == 'sol' and o.get('complete') and re.search(c['expect_msg_re'], o.get('message', ''))):
             devs.append(('regression:message', 'the diagnostic does not match %r: %r' % (c['expect_msg_re'], (o.get('message') or r['err'] or r['out'])[:120])))
         latent = c.get('synthetic') and c.get('inject') and (
-            (c['inject'][1] == 'foreign') or (c['inject'][0] == 'ctor'))
+            (c['inject'][1] in ('foreign', 'abort', 'hang')) or (c['inject'][0] == 'ctor'))
         for sig, text in devs:
-            bump('deviation', sig.split(':')[0] + (':latent-injection' if latent and sig.split(':')[0] in ('crash', 'ctorcode') else ''))
-            if latent and sig.split(':')[0] in ('crash', 'ctorcode') and not corr_bad:
+            bump('deviation', sig.split(':')[0] + (':latent-injection' if latent and sig.split(':')[0] in ('crash', 'ctorcode', 'hang') else ''))
+            if latent and sig.split(':')[0] in ('crash', 'ctorcode', 'hang') and not corr_bad:
                 n_latent += 1        # model row validated by injection; not an input of the property's domain
                 continue
             ck.add_violation(sig, '%s  [family %s, argv tail %s]' % (text, c['family'], ' '.join(
